@@ -18,7 +18,7 @@ import (
 	"verif/engine/refcass"
 )
 
-const seqKS = "ks"    // the session keyspace
+const seqKS = "ks"   // the session keyspace
 const seqKS2 = "ks2" // another keyspace (same replication), known to the policy only through KeyspaceChanged events for it
 
 // universes of up to this many nodes also get the events "KeyspaceChanged for another keyspace" and lookups in it
@@ -90,9 +90,9 @@ func findSeqKeys() {
 
 type seqCounters struct {
 	universes, explorations, states, transitions, failedFetchTransitions, replayedEvents int64
-	lookups, lookupsWithoutEntry, picks, frontierCut, panics                           int64
-	maxDepth                                                                           int64
-	byEvent                                                                            [4]int64
+	lookups, lookupsWithoutEntry, picks, frontierCut, panics, violatingStates            int64
+	maxDepth                                                                             int64
+	byEvent                                                                              [4]int64
 }
 
 var seqCnt seqCounters
@@ -150,6 +150,7 @@ func seqRule(thorough bool) string {
 }
 
 func runSeqItem(it seqItem, strats []strategy) {
+	otherKsMax := otherKsMaxNodes(r.Thorough())
 	a, label := it.a, it.label
 	n, T := a.n, len(a.owners)
 	ps := &partSpecs[0]
@@ -265,6 +266,10 @@ func runSeqItem(it seqItem, strats []strategy) {
 		}
 		r.Case(fmt.Sprintf("seq|%v|%d|%s", a.owners, label, st.name), any)
 
+		kss := []string{seqKS}
+		if n <= otherKsMax {
+			kss = append(kss, seqKS2)
+		}
 		fetchOK := true
 		fetch := func(name string) (*gocql.KeyspaceMetadata, error) {
 			if name != seqKS && name != seqKS2 {
@@ -301,23 +306,33 @@ func runSeqItem(it seqItem, strats []strategy) {
 		}
 
 		// check compares what the policy serves with the placement on the current ring and returns the state key
-		check := func(pol gocql.HostSelectionPolicy, mask int, path []seqEvent, strict bool, after string) string {
+		check := func(pol gocql.HostSelectionPolicy, mask int, path []seqEvent, ev *seqEvent) (stateKey string, clean bool) {
+			clean = true
+			viol := func(key string, detail func() string, replay interface{}) {
+				clean = false
+				viol(key, detail, replay)
+			}
 			s := subs[mask]
-			suffix := ":after-" + after
-			if !strict {
-				suffix += ":keyspace-metadata-fetch-failed"
+			after := "SetPartitioner"
+			if ev != nil {
+				after = seqEvName[ev.kind]
+			}
+			failed := ev != nil && !ev.ok
+			ringSuffix := ":after-" + after
+			if failed {
+				ringSuffix += ":keyspace-metadata-fetch-failed"
 			}
 			replay := func() map[string]interface{} {
 				return map[string]interface{}{"ring_owners": a.owners, "nodes": eps, "ring_tokens": allTokens, "setting": st.name, "events": pathString(path), "members_now": s.members}
 			}
 			var key strings.Builder
 			key.WriteString(strconv.Itoa(mask))
-			ring, rm := gocql.VerifC10PolicyView(pol, seqKS)
+			ring, _ := gocql.VerifC10PolicyView(pol, seqKS)
 			if ring == nil {
-				viol("policy:no-token-ring"+suffix, func() string {
+				viol("policy:no-token-ring"+ringSuffix, func() string {
 					return fmt.Sprintf("%s, %s, events %v: the policy serves no token ring", universe, st.name, pathString(path))
 				}, replay())
-				return key.String() + "|noring"
+				return key.String() + "|noring", false
 			}
 			ts, hs := ring.Entries()
 			okRing := len(ts) == len(s.tokens)
@@ -328,7 +343,7 @@ func runSeqItem(it seqItem, strats []strategy) {
 				}
 			}
 			if !okRing {
-				viol("policy:token-ring-not-current"+suffix, func() string {
+				viol("policy:token-ring-not-current"+ringSuffix, func() string {
 					var got []string
 					for i := range ts {
 						got = append(got, fmt.Sprintf("%s:%d", ts[i], idx[hs[i]]))
@@ -336,186 +351,223 @@ func runSeqItem(it seqItem, strats []strategy) {
 					return fmt.Sprintf("%s, %s, events %v: members now %v, ring should be tokens %v owners %v, the policy serves %v", universe, st.name, pathString(path), s.members, s.tokens, s.owners, got)
 				}, replay())
 			}
-			if rm == nil {
-				key.WriteString("|nomap")
-			} else {
-				mt, mh := rm.Entries()
-				key.WriteString("|map")
-				for i := range mt {
-					key.WriteString("|" + mt[i] + "=")
-					for _, h := range mh[i] {
-						if h == nil {
-							key.WriteString("nil,")
-						} else {
-							key.WriteString(strconv.Itoa(idx[h]) + ",")
-						}
+			for _, K := range kss {
+				_, rm := gocql.VerifC10PolicyView(pol, K)
+				// the entry for keyspace K must be exact when this event fetched K's metadata successfully; otherwise the
+				// policy may hold no entry for K, but an entry it holds must still be the placement on the current ring
+				var strict bool
+				suffix := ":after-" + after
+				if K == seqKS {
+					strict = ev == nil || ev.kind != 3 && ev.ok
+					if failed && ev.kind != 3 {
+						suffix += ":keyspace-metadata-fetch-failed"
+					}
+				} else {
+					strict = ev != nil && ev.kind == 3 && ev.ok
+					suffix += ":other-keyspace"
+					if failed && ev.kind == 3 {
+						suffix += ":keyspace-metadata-fetch-failed"
 					}
 				}
-			}
-			for _, lk := range s.lookups {
-				c.lookups++
-				var w []int
-				owner := -1
-				if len(s.tokens) > 0 {
-					w = want[mask][lk.start]
-					owner = s.owners[lk.start]
-				}
-				ownerHolds := owner >= 0 && (st.simple && st.rf > 0 || !st.simple && st.dcs[eps[owner].DC] > 0)
-				var got []int
-				found := false
-				var pan interface{}
-				if rm != nil {
-					func() {
-						defer func() { pan = recover() }()
-						var hl []*gocql.HostInfo
-						hl, _, found = rm.ReplicasFor(lk.tok)
-						for _, h := range hl {
+				if rm == nil {
+					key.WriteString("|nomap")
+				} else {
+					mt, mh := rm.Entries()
+					key.WriteString("|map")
+					for i := range mt {
+						key.WriteString("|" + mt[i] + "=")
+						for _, h := range mh[i] {
 							if h == nil {
-								got = append(got, -1)
+								key.WriteString("nil,")
 							} else {
-								got = append(got, idx[h])
+								key.WriteString(strconv.Itoa(idx[h]) + ",")
 							}
 						}
-					}()
-				}
-				detail := func() string {
-					entry := "no entry for the keyspace"
-					if rm != nil && !found {
-						entry = "empty replica map"
-					} else if found {
-						entry = fmt.Sprintf("replicas %v", got)
 					}
-					return fmt.Sprintf("%s, %s, events %v: members now %v, current ring tokens %v owners %v; lookup token %q (range owner: node %d): the policy holds %s, Cassandra places it on %v",
-						universe, st.name, pathString(path), s.members, s.tokens, s.owners, lk.tok, owner, entry, w)
 				}
-				rp := func() map[string]interface{} { m := replay(); m["lookup"] = lk.tok; return m }
-				if pan != nil {
-					viol("policy:"+sName+":replicasFor-panics:"+panicClass(pan)+suffix, detail, rp())
-					continue
-				}
-				if !found {
-					c.lookupsWithoutEntry++
-				}
-				// after a failed fetch the policy may hold no association at all (it then routes by the ring owner)
-				if found || strict {
-					dup, stale := false, false
-					var seen, ws uint
-					for _, g := range got {
-						if seen&(1<<uint(g+1)) != 0 {
-							dup = true
-						}
-						seen |= 1 << uint(g+1)
-						if g < 0 || mask&(1<<uint(g)) == 0 {
-							stale = true
-						}
+				for _, lk := range s.lookups {
+					c.lookups++
+					var w []int
+					owner := -1
+					if len(s.tokens) > 0 {
+						w = want[mask][lk.start]
+						owner = s.owners[lk.start]
 					}
-					for _, e := range w {
-						ws |= 1 << uint(e+1)
-					}
-					switch {
-					case stale:
-						viol("policy:"+sName+":node-not-in-the-ring-listed"+suffix, detail, rp())
-					case dup:
-						viol("policy:"+sName+":node-listed-twice"+suffix, detail, rp())
-					default:
-						if missing, extra := ws&^seen != 0, seen&^ws != 0; missing || extra {
-							kind := "replica-set-differs"
-							switch {
-							case missing && !extra:
-								kind = "replica-missing"
-							case extra && !missing:
-								kind = "non-replica-listed"
+					ownerHolds := owner >= 0 && (st.simple && st.rf > 0 || !st.simple && st.dcs[eps[owner].DC] > 0)
+					var got []int
+					found := false
+					var pan interface{}
+					if rm != nil {
+						func() {
+							defer func() { pan = recover() }()
+							var hl []*gocql.HostInfo
+							hl, _, found = rm.ReplicasFor(lk.tok)
+							for _, h := range hl {
+								if h == nil {
+									got = append(got, -1)
+								} else {
+									got = append(got, idx[h])
+								}
 							}
-							viol("policy:"+sName+":"+kind+suffix, detail, rp())
-						}
-						if ownerHolds && (len(got) == 0 || got[0] != owner) {
-							viol("policy:"+sName+":range-owner-not-first"+suffix, detail, rp())
-						}
+						}()
 					}
-				}
-				if lk.key == nil {
-					continue
-				}
-				// the hosts Pick offers for a query with this routing key
-				c.picks++
-				var S []int
-				bad := ""
-				pan = nil
-				func() {
-					defer func() { pan = recover() }()
-					next := pol.Pick(gocql.VerifC10Query(seqKS, lk.key))
-					if next == nil {
-						bad = "nil-iterator"
-						return
-					}
-					for i := 0; ; i++ {
-						sh := next()
-						if sh == nil {
-							return
+					detail := func() string {
+						entry := "no entry for the keyspace"
+						if rm != nil && !found {
+							entry = "empty replica map"
+						} else if found {
+							entry = fmt.Sprintf("replicas %v", got)
 						}
-						if i >= 4*n+8 {
-							bad = "sequence-does-not-end"
-							return
-						}
-						h := sh.Info()
-						if h == nil {
-							bad = "nil-host-offered"
-							return
-						}
-						S = append(S, idx[h])
+						return fmt.Sprintf("%s, %s, events %v: members now %v, current ring tokens %v owners %v; lookup token %q (range owner: node %d): for keyspace %s the policy holds %s, Cassandra places it on %v",
+							universe, st.name, pathString(path), s.members, s.tokens, s.owners, lk.tok, owner, K, entry, w)
 					}
-				}()
-				pdetail := func() string {
-					return fmt.Sprintf("%s, %s, events %v: members now %v, current ring tokens %v owners %v; routing key %q (token %s, range owner: node %d): Pick offers %v, Cassandra places the token on %v",
-						universe, st.name, pathString(path), s.members, s.tokens, s.owners, lk.key, lk.tok, owner, S, w)
-				}
-				if pan != nil {
-					viol("policy:Pick-panics:"+panicClass(pan)+suffix, pdetail, rp())
-					continue
-				}
-				if bad != "" {
-					viol("policy:Pick:"+bad+suffix, pdetail, rp())
-					continue
-				}
-				var seen uint
-				gone, twice := false, false
-				for _, g := range S {
-					if mask&(1<<uint(g)) == 0 {
-						gone = true
+					rp := func() map[string]interface{} { m := replay(); m["lookup"] = lk.tok; m["keyspace"] = K; return m }
+					if pan != nil {
+						viol("policy:"+sName+":replicasFor-panics:"+panicClass(pan)+suffix, detail, rp())
+						continue
 					}
-					if seen&(1<<uint(g)) != 0 {
-						twice = true
+					if !found {
+						c.lookupsWithoutEntry++
 					}
-					seen |= 1 << uint(g)
-				}
-				switch {
-				case gone:
-					viol("policy:Pick:node-not-in-the-ring-offered"+suffix, pdetail, rp())
-				case twice:
-					viol("policy:Pick:node-offered-twice"+suffix, pdetail, rp())
-				case strict && len(w) > 0:
-					okFirst := len(S) >= len(w)
-					if okFirst {
-						var first, ws uint
-						for _, g := range S[:len(w)] {
-							first |= 1 << uint(g)
+					// after a failed fetch the policy may hold no association at all (it then routes by the ring owner)
+					entryOK := true
+					if found || strict {
+						entryOK = false
+						dup, stale := false, false
+						var seen, ws uint
+						for _, g := range got {
+							if seen&(1<<uint(g+1)) != 0 {
+								dup = true
+							}
+							seen |= 1 << uint(g+1)
+							if g < 0 || mask&(1<<uint(g)) == 0 {
+								stale = true
+							}
 						}
 						for _, e := range w {
-							ws |= 1 << uint(e)
+							ws |= 1 << uint(e+1)
 						}
-						okFirst = first == ws
+						missing, extra := ws&^seen != 0, seen&^ws != 0
+						ownerBad := ownerHolds && (len(got) == 0 || got[0] != owner)
+						switch {
+						case !strict:
+							// an entry the policy kept or built although this event could not / did not fetch the keyspace's
+							// metadata: one finding per event kind, whatever the symptom (node that left still listed, ranges
+							// of a joined node still with the old owner, ...)
+							if stale || dup || missing || extra || ownerBad {
+								viol("policy:replica-map-entry-not-for-the-current-ring"+suffix, detail, rp())
+							} else {
+								entryOK = true
+							}
+						case stale:
+							viol("policy:"+sName+":node-not-in-the-ring-listed"+suffix, detail, rp())
+						case dup:
+							viol("policy:"+sName+":node-listed-twice"+suffix, detail, rp())
+						default:
+							entryOK = !missing && !extra && !ownerBad
+							if missing || extra {
+								kind := "replica-set-differs"
+								switch {
+								case missing && !extra:
+									kind = "replica-missing"
+								case extra && !missing:
+									kind = "non-replica-listed"
+								}
+								viol("policy:"+sName+":"+kind+suffix, detail, rp())
+							}
+							if ownerBad {
+								viol("policy:"+sName+":range-owner-not-first"+suffix, detail, rp())
+							}
+						}
 					}
-					if !okFirst {
-						viol("policy:Pick:"+sName+":replicas-not-offered-first"+suffix, pdetail, rp())
-					} else if ownerHolds && S[0] != owner {
-						viol("policy:Pick:"+sName+":range-owner-not-offered-first"+suffix, pdetail, rp())
+					if lk.key == nil || !entryOK {
+						continue // (what Pick offers on top of a wrong entry is a consequence)
+					}
+					// the hosts Pick offers for a query with this routing key
+					c.picks++
+					var S []int
+					bad := ""
+					pan = nil
+					func() {
+						defer func() { pan = recover() }()
+						next := pol.Pick(gocql.VerifC10Query(K, lk.key))
+						if next == nil {
+							bad = "nil-iterator"
+							return
+						}
+						for i := 0; ; i++ {
+							sh := next()
+							if sh == nil {
+								return
+							}
+							if i >= 4*n+8 {
+								bad = "sequence-does-not-end"
+								return
+							}
+							h := sh.Info()
+							if h == nil {
+								bad = "nil-host-offered"
+								return
+							}
+							S = append(S, idx[h])
+						}
+					}()
+					pdetail := func() string {
+						return fmt.Sprintf("%s, %s, events %v: members now %v, current ring tokens %v owners %v; routing key %q (token %s, range owner: node %d): Pick offers %v, Cassandra places the token on %v",
+							universe, st.name, pathString(path), s.members, s.tokens, s.owners, lk.key, lk.tok, owner, S, w)
+					}
+					if pan != nil {
+						viol("policy:Pick-panics:"+panicClass(pan)+suffix, pdetail, rp())
+						continue
+					}
+					if bad != "" {
+						viol("policy:Pick:"+bad+suffix, pdetail, rp())
+						continue
+					}
+					var seen uint
+					gone, twice := false, false
+					for _, g := range S {
+						if mask&(1<<uint(g)) == 0 {
+							gone = true
+						}
+						if seen&(1<<uint(g)) != 0 {
+							twice = true
+						}
+						seen |= 1 << uint(g)
+					}
+					switch {
+					case gone:
+						viol("policy:Pick:node-not-in-the-ring-offered"+suffix, pdetail, rp())
+					case twice:
+						viol("policy:Pick:node-offered-twice"+suffix, pdetail, rp())
+					case strict && len(w) > 0:
+						okFirst := len(S) >= len(w)
+						if okFirst {
+							var first, ws uint
+							for _, g := range S[:len(w)] {
+								first |= 1 << uint(g)
+							}
+							for _, e := range w {
+								ws |= 1 << uint(e)
+							}
+							okFirst = first == ws
+						}
+						if !okFirst {
+							viol("policy:Pick:"+sName+":replicas-not-offered-first"+suffix, pdetail, rp())
+						} else if ownerHolds && S[0] != owner {
+							viol("policy:Pick:"+sName+":range-owner-not-offered-first"+suffix, pdetail, rp())
+						}
 					}
 				}
 			}
-			return key.String()
+			return key.String(), clean
 		}
 
 		// breadth-first exploration of the policy's states
+		evSlots := n + 1 // one Add/Remove slot per node, KeyspaceChanged
+		if len(kss) > 1 {
+			evSlots++ // KeyspaceChanged of the other keyspace
+		}
 		type qItem struct {
 			path []seqEvent
 			mask int
@@ -530,16 +582,22 @@ func runSeqItem(it seqItem, strats []strategy) {
 				viol("policy:"+sName+":SetPartitioner-panics:"+panicClass(pan), func() string { return fmt.Sprintf("%s, %s: %v", universe, st.name, pan) }, nil)
 				continue
 			}
-			visited[check(pol, 0, nil, true, "SetPartitioner")] = true
+			k, clean := check(pol, 0, nil, nil)
+			visited[k] = true
 			c.states++
-			queue = append(queue, qItem{nil, 0})
+			if clean {
+				queue = append(queue, qItem{nil, 0})
+			}
 		}
 		for len(queue) > 0 {
 			it := queue[0]
 			queue = queue[1:]
-			for node := 0; node <= n; node++ {
+			for node := 0; node < evSlots; node++ {
 				for f := 0; f < 2; f++ {
 					ev := seqEvent{kind: 2, ok: f == 0}
+					if node > n {
+						ev.kind = 3
+					}
 					newMask := it.mask
 					if node < n {
 						ev.node = node
@@ -573,7 +631,7 @@ func runSeqItem(it seqItem, strats []strategy) {
 						}, map[string]interface{}{"ring_owners": a.owners, "nodes": eps, "setting": st.name, "events": pathString(path)})
 						continue
 					}
-					k := check(pol, newMask, path, ev.ok, seqEvName[ev.kind])
+					k, clean := check(pol, newMask, path, &ev)
 					if int64(len(path)) > c.maxDepth {
 						c.maxDepth = int64(len(path))
 					}
@@ -582,7 +640,9 @@ func runSeqItem(it seqItem, strats []strategy) {
 					}
 					visited[k] = true
 					c.states++
-					if len(path) < maxDepth {
+					if !clean {
+						c.violatingStates++ // reported; states behind a violating state are not explored (their findings would be consequences)
+					} else if len(path) < maxDepth {
 						queue = append(queue, qItem{path, newMask})
 					} else {
 						c.frontierCut++
@@ -617,6 +677,7 @@ func runSeqItem(it seqItem, strats []strategy) {
 	seqCnt.picks += c.picks
 	seqCnt.frontierCut += c.frontierCut
 	seqCnt.panics += c.panics
+	seqCnt.violatingStates += c.violatingStates
 	if c.maxDepth > seqCnt.maxDepth {
 		seqCnt.maxDepth = c.maxDepth
 	}
@@ -642,9 +703,9 @@ func seqExtra() map[string]interface{} {
 	return map[string]interface{}{
 		"universes": seqCnt.universes, "explorations_universe_x_setting": seqCnt.explorations, "policy_states_visited": seqCnt.states,
 		"transitions_checked": seqCnt.transitions, "transitions_with_a_failing_fetch": seqCnt.failedFetchTransitions,
-		"transitions_by_event": map[string]int64{"AddHost": seqCnt.byEvent[0], "RemoveHost": seqCnt.byEvent[1], "KeyspaceChanged": seqCnt.byEvent[2]},
+		"transitions_by_event":            map[string]int64{"AddHost": seqCnt.byEvent[0], "RemoveHost": seqCnt.byEvent[1], "KeyspaceChanged": seqCnt.byEvent[2], "KeyspaceChanged of another keyspace": seqCnt.byEvent[3]},
 		"events_replayed_to_reach_states": seqCnt.replayedEvents, "lookups": seqCnt.lookups, "lookups_with_no_replica_map_entry": seqCnt.lookupsWithoutEntry,
 		"picks_drained": seqCnt.picks, "longest_event_sequence": seqCnt.maxDepth, "new_states_at_the_length_bound_not_expanded": seqCnt.frontierCut,
-		"events_that_panicked": seqCnt.panics, "routing_keys": ks,
+		"events_that_panicked": seqCnt.panics, "violating_states_not_expanded": seqCnt.violatingStates, "routing_keys": ks,
 	}
 }
